@@ -30,6 +30,7 @@ THEOREMS = {
     "C11_model_is_source_sparse_cover_generate_and_unmask_initial_plate": "translations of the public initial-plate wrapper (core.py) and of SparseCoverPlateGenerator._generate_and_unmask_initial_plate compose to sparse_cover for sufficient while-fuel (> recorded answers or > distinct treatment ids)",
     "C11_model_is_source_sparse_cover_terminates": "as C13_model_is_source_sparse_cover_terminates: the fuel hypothesis is discharged by the termination theorem",
     "C11_model_is_source_filter_dataset_to_treatments_that_appear_in_at_least_one_combo": "translation of the combination filter (data.py) = combo_filter",
+    "C11_model_is_source_pairwise_generate_plates": "as C13_model_is_source_pairwise_generate_plates: translation of the whole method PairwisePlateGenerator._generate_plates = pairwise under the argsort hypothesis (first answer = np.argsort's positions when anchors are requested); through the wrapper = generate_plates (GPairwise ..)",
     "C11_generator_conserves": "every shipped generator, any oracle: generate_plates = Ok out -> out = new ++ observed input rows (unchanged), new all unobserved, new minus plate labels is a Permutation of the unobserved input rows minus plate labels",
     "C11_relabel_conserves": "generic: ANY relabelling of plates (any label oracle) leaves rows-minus-label unchanged, in order",
     "C11_smoother_sub": "every shipped smoother, any oracle: smooth_plates = Ok out -> out = new ++ observed input rows, new all unobserved, exists rest with Permutation (strip new ++ rest) (strip unobserved input)",
@@ -95,7 +96,7 @@ EXPLANATION = ("Models: Model/Retro.v (wrappers, PlatePermutation, SampleSegrega
                "treatment_mapping and are matched as such), and the shipped generators / smoothers / SparseCover / combination "
                "filter = the models the conservation theorems are about; their hypotheses (max_plate_size >= 0, permutation contract "
                "or the checked model, sufficient while-fuel) and the full list of trusted primitives are in C13's explanation.  "
-               "Not linked: PairwisePlateGenerator._generate_plates.")
+               "PairwisePlateGenerator._generate_plates is linked too (C11_model_is_source_pairwise_generate_plates, hypothesis argsort_ok).")
 
 
 def gen(rng, tier):
